@@ -25,7 +25,8 @@ def bodies(rnd: random.Random, n_random: int = 40):
         d.serial_number = "00:11:22:33:44:%02x" % (i % 256)
         d.multicast_address = "224.0.23.12"
         d.mac_address = "aa:bb:cc:dd:ee:%02x" % (i % 256)
-        d.name = ["", "Gateway", "KNX IP Router 750", "x" * 30][i % 4]
+        # the name field is 30 octets of ISO 8859-1
+        d.name = ["", "Gateway", "KNX IP Router 750", "x" * 30, "Büro Gateway", "Küche Süd " + "ä" * 20, "é" * 30, "IP-Router Fläche 1. OG"][i % 8]
         return d
 
     def families(cls, i):
@@ -65,6 +66,10 @@ def bodies(rnd: random.Random, n_random: int = 40):
                k.ConnectRequestInformation(individual_address=IndividualAddress(0x1105)),
                k.ConnectRequestInformation(knx_layer=TunnellingLayer.BUSMONITOR_LAYER)][i % 4]
         out.append(k.ConnectRequest(control_endpoint=hp[i % 4], data_endpoint=hp[(i + 1) % 4], cri=cri))
+        for ct in ConnectRequestType:          # every connection type of the enumeration, in the request and in the response
+            if i < 2:
+                out.append(k.ConnectRequest(control_endpoint=hp[i % 4], data_endpoint=hp[(i + 1) % 4], cri=k.ConnectRequestInformation(ct)))
+                out.append(k.ConnectResponse(communication_channel=7, data_endpoint=hp[i % 4], crd=k.ConnectResponseData(ct, individual_address=IndividualAddress(0x1203)) if ct is ConnectRequestType.TUNNEL_CONNECTION else k.ConnectResponseData(ct)))
         crd = [k.ConnectResponseData(individual_address=IndividualAddress(0x11FF)), k.ConnectResponseData(ConnectRequestType.DEVICE_MGMT_CONNECTION)][i % 2]
         out.append(k.ConnectResponse(communication_channel=i * 31 % 256, data_endpoint=hp[i % 4], crd=crd))
     for e in ErrorCode:
